@@ -8,6 +8,7 @@ ISOTOPES, LLNL parameters, SOLUTION_SPREAD units, TITLE, -logfile, reaction enti
 pressures, DUMP selection, COPY/MIX/DELETE/RUN_CELLS requests, redefinitions of database species.
 No block uses SELECTED_OUTPUT -file / DUMP -file / TRANSPORT -dump_file: input-given file names are user-set file names,
 which the property lets survive."""
+import re
 from pathlib import Path
 
 import vlib
@@ -26,6 +27,18 @@ def hx(s):
 
 def databases():
     return [d for d in FAMILY if (DBDIR / d).exists()]
+
+
+_CAP = {}
+
+
+def has_gases(db):
+    """GAS_PHASE blocks are only generated for databases that define both gases (a stored GAS_PHASE naming an unknown phase
+    makes IPhreeqc::ListComponents dereference NULL -- outside C07)"""
+    if db not in _CAP:
+        t = (DBDIR / db).read_text(errors="replace") if (DBDIR / db).exists() else ""
+        _CAP[db] = bool(re.search(r"^CO2\(g\)", t, re.M)) and bool(re.search(r"^H2O\(g\)", t, re.M))
+    return _CAP[db]
 
 
 # ---------------------------------------------------------------------------------------------------------- history blocks
@@ -126,7 +139,7 @@ P_TITLE_PRINT = "PRINT\n -totals true\nSOLUTION 9\n pH 6\n Na 1\n Cl 1\nEND\n"
 def battery(db, rng, full=False):
     fam = FAMILY.get(db, "std")
     runs = [P_BASIC, P_NOSEL, P_REACT, P_TRANSPORT, P_KIN, P_SPREAD, P_TITLE_PRINT]
-    if fam in ("std", "llnl", "pitzer"):
+    if has_gases(db):
         runs.append(P_GAS)
     if fam in ("pitzer", "sit", "std"):
         runs.append(P_HIGHI)
@@ -191,7 +204,7 @@ def gen_history(rng, max_calls=6):
                     ops.append("accline " + hx("SOLUTION 77; pH 7"))
             tags.append("setters")
         fam = FAMILY.get(cur_db, "std")
-        cands = [b for b in BLOCKS if b[1] is None or fam in b[1]]
+        cands = [b for b in BLOCKS if (b[1] is None or fam in b[1]) and (b[0] not in ("gas", "gas_binary") or has_gases(cur_db))]
         nb = rng.randint(1, 3)
         text = "".join(rng.choice(cands)[2] for _ in range(nb))
         chosen = [b[0] for b in cands if b[2] in text]
@@ -203,7 +216,7 @@ def gen_history(rng, max_calls=6):
         f = rng.choice(cands)
         pre = ""
         if rng.random() < 0.5:
-            pre = rng.choice([b for b in BLOCKS if b[1] is None or fam in b[1]])[2]
+            pre = rng.choice([b for b in BLOCKS if (b[1] is None or fam in b[1]) and b[0] not in ("gas", "gas_binary")])[2]
             pre = pre[:pre.rfind("END\n")]        # same simulation as the failing part
         if isinstance(f[2], tuple):
             ops.append("runf " + hx(f[2][1]))
